@@ -98,7 +98,22 @@ def _cmp(op, a, b):
 
 
 def feasible(body, prov, ev, start=0, cut=None):
-    """Blocks reachable from `start` when switches are resolved by the cell `ev`."""
+    """Blocks reachable from `start` when switches are resolved by the cell `ev`.  The provenance of the switch operands is
+    then re-derived from the definitions inside the feasible blocks only (a flag set on several arms denotes the value of
+    the arms the cell can reach) and the computation repeated until the set is stable."""
+    seen, decided = _feasible_once(body, prov, ev, start, cut)
+    if start != 0:
+        return seen, decided
+    for _ in range(4):
+        p2 = flow.Prov(body, transparent=prov.transparent, only_blocks=seen)
+        s2, d2 = _feasible_once(body, p2, ev, start, cut)
+        if s2 == seen:
+            return s2, d2
+        seen, decided = s2, d2
+    return seen, decided
+
+
+def _feasible_once(body, prov, ev, start=0, cut=None):
     seen = set()
     work = [start]
     decided = {}
@@ -168,30 +183,123 @@ def has_agg(tg, adt, variant):
     return ("agg", adt, variant) in tg
 
 
-def filter_verdict(facts, body, prov, ev):
-    """When `body` draws its items through Iterator::filter(.., closure): the closure's verdict for items of the cell `ev`
-    (evaluated in the closure body).  True: kept, False: dropped by the filter, None: no filter / not decided."""
+def closure_verdict(facts, closure_term, ev):
+    """Value (0/1) a bool-returning closure yields for items of the cell `ev`, or None."""
+    cl = [x for x in flow.subterms(closure_term) if x[0] == "agg" and x[1] == "closure"]
+    if not cl:
+        return None
+    cb = facts.body(cl[0][2])
+    if cb is None:
+        return None
+    blocks, _ = feasible(cb, flow.Prov(cb), ev)
+    v = eval_term(flow.Prov(cb, only_blocks=blocks).local(0), lambda t: None)
+    return v if v in (0, 1) else None
+
+
+def filter_verdict_of(facts, term, ev):
+    """`term` describes where items come from (e.g. the receiver of a loop or of try_for_each).  When it draws them through
+    Iterator::filter(.., closure): True = the closure keeps items of the cell `ev`, False = it drops them; None: no filter
+    on the way or not decided."""
     verdicts = []
-    for blk in body.calls():
-        cp = callee_path(blk.term) or ""
-        if not (cp.endswith("Iterator::filter") or cp.endswith("::filter")):
-            continue
-        if len(blk.term["args"]) < 2:
-            continue
-        ct = prov.operand(blk.term["args"][1])
-        cl = [s for s in flow.subterms(ct) if s[0] == "agg" and s[1] == "closure"]
-        if not cl:
-            return None
-        cb = facts.body(cl[0][2])
-        if cb is None:
-            return None
-        cprov = flow.Prov(cb)
-        blocks, _ = feasible(cb, cprov, ev)
-        rprov = flow.Prov(cb, only_blocks=blocks)
-        v = eval_term(rprov.local(0), lambda t: None)
-        if v not in (0, 1):
-            return None
-        verdicts.append(bool(v))
+    for x in flow.subterms(term):
+        if x[0] == "call" and ((x[1] or "").endswith("Iterator::filter") or (x[1] or "").endswith("::filter")) and len(x[2]) >= 2:
+            v = closure_verdict(facts, x[2][1], ev)
+            if v is None:
+                return None
+            verdicts.append(bool(v))
     if not verdicts:
         return None
     return all(verdicts)
+
+
+def filter_verdict(facts, body, prov, ev):
+    """All Iterator::filter calls of `body` (see filter_verdict_of)."""
+    verdicts = []
+    for blk in body.calls():
+        cp = callee_path(blk.term) or ""
+        if (cp.endswith("Iterator::filter") or cp.endswith("::filter")) and len(blk.term["args"]) >= 2:
+            v = closure_verdict(facts, prov.operand(blk.term["args"][1]), ev)
+            if v is None:
+                return None
+            verdicts.append(bool(v))
+    if not verdicts:
+        return None
+    return all(verdicts)
+
+
+def closure_feed(facts, closure_body):
+    """For a closure handed to an iterator consumer (for_each, try_for_each, map, ...): (parent body, its Prov, the call
+    block, the term of the receiver the items come from); None when the closure is not passed to a call of its parent."""
+    parent = facts.body(closure_body.parent) if closure_body.parent else None
+    if parent is None:
+        return None
+    prov = flow.Prov(parent)
+    for blk in parent.calls():
+        for ai, a in enumerate(blk.term["args"]):
+            t = prov.operand(a)
+            if any(x[0] == "agg" and x[1] == "closure" and x[2] == closure_body.path for x in flow.subterms(t)):
+                if ai == 0:
+                    continue
+                return parent, prov, blk, prov.operand(blk.term["args"][0])
+    return None
+
+
+def _ancestors(body, starts):
+    preds = body.preds()
+    seen = set()
+    work = list(starts)
+    while work:
+        b = work.pop()
+        for p in preds.get(b, []):
+            if p not in seen:
+                seen.add(p)
+                work.append(p)
+    return seen
+
+
+def feasible_from(body, starts, ev=None):
+    """Blocks that can execute after control reached one of `starts`: switches are resolved with the values the blocks on
+    the way define (definitions in blocks that neither lead to nor follow `starts` are not reaching definitions there), with
+    discriminants of freshly built aggregates known: `match` on an Ok/Err/Some/None just constructed, `?` on it."""
+    from . import cfg
+    facts = body.facts
+    anc = _ancestors(body, starts)
+    only = cfg.reachable(body, list(starts)) | anc | set(starts)
+
+    def variant_no(path, vname):
+        v = flow.enum_variants(facts, path)
+        if not v:
+            return None
+        for dno, name in v.items():
+            if name == vname:
+                return dno
+        return None
+
+    def ev2(t):
+        if ev is not None:
+            r = ev(t)
+            if r is not None:
+                return r
+        if t[0] == "discr":
+            x = t[1]
+            if x[0] == "agg" and x[1] not in ("closure", "tuple", "array") and x[2]:
+                return variant_no(x[1], x[2])
+            if x[0] == "call" and (x[1] or "").endswith("::branch") and x[2]:
+                y = flow.through_adapters(x[2][0])
+                if y[0] == "agg" and y[2] in ("Err", "None"):
+                    return 1   # ControlFlow::Break
+                if y[0] == "agg" and y[2] in ("Ok", "Some"):
+                    return 0   # ControlFlow::Continue
+        return None
+    seen = set()
+    for _ in range(5):
+        prov = flow.Prov(body, only_blocks=only)
+        cur = set()
+        for s0 in starts:
+            s1, _d = _feasible_once(body, prov, ev2, s0, None)
+            cur |= s1
+        if cur == seen:
+            break
+        seen = cur
+        only = seen | anc
+    return seen
